@@ -624,4 +624,162 @@ theorem txRoot_inj_of_length_eq (C : Crypto) (occ : List Nat → Prop) (hinj : H
           rw [this, ih b (fun z hz => oa z (by simp at hz ⊢; exact Or.inr hz)) (fun z hz => ob z (by simp at hz ⊢; exact Or.inr hz)) hb.2]
     exact this _ _ (fun z hz => o1 z (List.mem_append_left _ hz)) (fun z hz => o2 z (List.mem_append_left _ hz)) hm
 
+/-! ### one uninterrupted `commit` keeps the chain invariant -/
+
+/-- `Inv` reads the store only through the block records -/
+theorem inv_store_congr (C : Crypto) (reg : Option (List (List Nat × Nat))) (c : ChainSt) (s' : List (SKey × SVal))
+    (h : ∀ j, blockAt s' j = blockAt c.store j) (hinv : Inv C reg c) : Inv C reg { c with store := s' } := by
+  obtain ⟨⟨⟨g, hg, hr⟩, hall⟩, hh, t, ht, htip⟩ := hinv
+  refine ⟨⟨⟨g, by simp only [h]; exact hg, hr⟩, fun i h1 h2 => ?_⟩, fun i hi => ?_, ⟨t, by simp only [h]; exact ht, htip⟩⟩
+  · obtain ⟨p, b, hp, hb, hc⟩ := hall i h1 h2
+    exact ⟨p, b, by simp only [h]; exact hp, by simp only [h]; exact hb, hc⟩
+  · obtain ⟨b, hb, hbh⟩ := hh i hi
+    exact ⟨b, by simp only [h]; exact hb, hbh⟩
+
+theorem fixTxRoot_of_root (C : Crypto) (b : Block) (h : b.header.txRoot = txRoot C b.txs) : fixTxRoot C b = b := by
+  unfold fixTxRoot
+  split
+  · obtain ⟨hd, txs, sigs⟩ := b
+    obtain ⟨a1, a2, a3, a4, a5, a6, a7, a8, a9⟩ := hd
+    simp only at h
+    simp [h]
+  · rfl
+
+/-- the block `commit` builds carries a signature that `verify_chain` accepts, when the node's own id is
+    registered with its own key -/
+theorem builtBlock_sigOk (C : Crypto) (n : Node) (ops : List Tx) (dirs : List Nat) (root : List Nat) (ts : Nat)
+    (hsc : SignCorrect C) (hreg : ∀ r, n.cfg.registry = some r → regLookup r n.cfg.nodeId = some n.cfg.key) :
+    regSigOk C n.cfg.registry (fixTxRoot C (builtBlock C n ops dirs root ts)).header = true := by
+  rw [fixTxRoot_of_root C _ rfl]
+  cases hr : n.cfg.registry with
+  | none => rfl
+  | some r =>
+    have hk := hreg r hr
+    obtain ⟨h1, h2⟩ := hsc n.cfg.key
+      ({ height := n.chain.height + 1, prevHash := n.chain.tip, txRoot := txRoot C ops, stateRoot := root,
+         embedding := embBytes dirs, codes := [], timestamp := ts, proposer := n.cfg.nodeId, signature := [] } : Header).bytes
+    simp only [regSigOk, sigOk, builtBlock, hk, h1, if_false]
+    exact h2
+
+theorem commitStep_cfg (C : Crypto) (n : Node) (l : Local) : (commitStep C n l).1.cfg = n.cfg := by
+  unfold commitStep
+  (repeat' (first | split | (simp only []; split))) <;> first | rfl | simp [finish]
+
+theorem commitRun_cfg (C : Crypto) : ∀ (f : Nat) (n : Node) (l : Local), (commitRun C f n l).1.cfg = n.cfg
+  | 0, _, _ => rfl
+  | f + 1, n, l => by
+    rw [commitRun]
+    split
+    · rfl
+    · simp only
+      rw [commitRun_cfg C f, commitStep_cfg]
+
+theorem commit_cfg (C : Crypto) (n : Node) (w ts : Nat) : (commit C n w ts).1.cfg = n.cfg := commitRun_cfg C 8 n _
+
+/-- one uninterrupted `TensorChain::commit` keeps the chain invariant, given: signing works, the node's id is
+    registered with its key, the clock has not gone back since the tip block -/
+theorem commit_inv (C : Crypto) (n : Node) (w ts : Nat) (hsc : SignCorrect C)
+    (hreg : ∀ r, n.cfg.registry = some r → regLookup r n.cfg.nodeId = some n.cfg.key)
+    (hinv : Inv C n.cfg.registry n.chain)
+    (hts : ∀ t, blockAt n.chain.store n.chain.height = some t → t.header.timestamp ≤ ts) :
+    Inv C n.cfg.registry (commit C n w ts).1.chain := by
+  have hr : commit C n w ts = commitRun C 7 (commitStep C n (Local.init w ts)).1 (commitStep C n (Local.init w ts)).2 := by
+    simp [commit, commitRun, Local.init]
+  have key := prepare_cases C n w ts
+  simp only at key
+  generalize commitStep C n (Local.init w ts) = q at key hr
+  obtain ⟨n1, l1⟩ := q
+  simp only at key hr
+  rcases key with ⟨hpc, hch, _⟩ | ⟨hpc, hch, hcfg, hlts, _⟩
+  · have : commit C n w ts = (n1, l1) := by rw [hr]; simp [commitRun, hpc]
+    rw [this]; simp only [hch]; exact hinv
+  · rcases pipeline C n1 l1 hpc with ⟨c', happ, h1, _⟩ | ⟨h1, _⟩
+    · rw [hr, h1]
+      rw [hcfg] at happ
+      refine inv_append C n.cfg.registry _ c' _ ?_ happ ?_ ?_
+      · exact inv_store_congr C _ n1.chain _ (fun j => blockAt_applyTxs _ _ j) (by rw [hch]; exact hinv)
+      · intro t ht
+        simp only [blockAt_applyTxs] at ht
+        rw [hch] at ht
+        have := hts t ht
+        simp only [builtBlock, hlts]
+        exact this
+      · intro _
+        have := builtBlock_sigOk C n1 l1.ops l1.dirs (stateRoot C (applyTxs n1.chain.store l1.ops)) l1.ts hsc
+          (by rw [hcfg]; exact hreg)
+        rw [hcfg] at this
+        exact this
+    · rw [hr, h1, hch]; exact hinv
+
+/-! ### the store's data image is the replay of the chain -/
+
+/-- the transactions of the stored blocks `1..=n`, in chain order -/
+def chainTxs (s : List (SKey × SVal)) : Nat → List Tx
+  | 0 => []
+  | n + 1 => chainTxs s n ++ (match blockAt s (n + 1) with | some b => b.txs | none => [])
+
+/-- equal data images (what clients read; block and metadata records are not compared) -/
+def DataEq (s s' : List (SKey × SVal)) : Prop := ∀ k, sget s (.data k) = sget s' (.data k)
+
+theorem DataEq.trans {a b c : List (SKey × SVal)} (h1 : DataEq a b) (h2 : DataEq b c) : DataEq a c :=
+  fun k => (h1 k).trans (h2 k)
+
+theorem applyTx_dataEq (s s' : List (SKey × SVal)) (h : DataEq s s') (t : Tx) : DataEq (applyTx s t) (applyTx s' t) := by
+  intro k
+  cases t with
+  | put k' v =>
+    simp only [applyTx]
+    by_cases hk : k' = k
+    · subst hk; rw [sget_sput_same, sget_sput_same]
+    · rw [sget_sput_ne _ _ _ _ (by simp [hk]), sget_sput_ne _ _ _ _ (by simp [hk])]; exact h k
+  | del k' =>
+    simp only [applyTx]
+    by_cases hk : k' = k
+    · subst hk; rw [sget_sdel_same, sget_sdel_same]
+    · rw [sget_sdel_ne _ _ _ (by simp [hk]), sget_sdel_ne _ _ _ (by simp [hk])]; exact h k
+
+theorem applyTxs_dataEq (txs : List Tx) : ∀ (s s' : List (SKey × SVal)), DataEq s s' → DataEq (applyTxs s txs) (applyTxs s' txs) := by
+  unfold applyTxs
+  induction txs with
+  | nil => intro s s' h; exact h
+  | cons t ts ih => intro s s' h; exact ih _ _ (applyTx_dataEq s s' h t)
+
+theorem applyTxs_append (s : List (SKey × SVal)) (a b : List Tx) : applyTxs s (a ++ b) = applyTxs (applyTxs s a) b := by
+  simp [applyTxs, List.foldl_append]
+
+theorem dataEq_sput_block (s : List (SKey × SVal)) (i : Nat) (v : SVal) : DataEq (sput s (.block i) v) s :=
+  fun k => sget_sput_ne _ _ _ _ (by simp)
+
+theorem dataEq_sput_meta (s : List (SKey × SVal)) (v : SVal) : DataEq (sput s .chainMeta v) s :=
+  fun k => sget_sput_ne _ _ _ _ (by simp)
+
+theorem chainTxs_congr (s s' : List (SKey × SVal)) : ∀ (n : Nat), (∀ j, j ≤ n → blockAt s' j = blockAt s j) → chainTxs s' n = chainTxs s n
+  | 0, _ => rfl
+  | n + 1, h => by
+    simp only [chainTxs]
+    rw [chainTxs_congr s s' n (fun j hj => h j (by omega)), h (n + 1) (Nat.le_refl _)]
+
+/-- the store's data image is the replay of the chain's blocks -/
+def DataInv (c : ChainSt) : Prop := DataEq c.store (applyTxs [] (chainTxs c.store c.height))
+
+theorem dataInv_init (C : Crypto) (p : List Nat) (ts : Nat) : DataInv (initChain C [] p ts) := by
+  intro k
+  simp only [initChain, chainTxs]
+  rw [sget_sput_ne _ _ _ _ (by simp), sget_sput_ne _ _ _ _ (by simp)]
+  rfl
+
+/-- appending block `b` on top of a store to which exactly `b.txs` were applied keeps `DataInv` -/
+theorem dataInv_commit (c : ChainSt) (b : Block) (tip' : List Nat) (h : DataInv c) :
+    DataInv { store := sput (sput (applyTxs c.store b.txs) (.block (c.height + 1)) (.block b)) .chainMeta (.height (c.height + 1)),
+              height := c.height + 1, tip := tip' } := by
+  unfold DataInv
+  simp only [chainTxs]
+  have hold : ∀ j, j ≤ c.height →
+      blockAt (sput (sput (applyTxs c.store b.txs) (.block (c.height + 1)) (.block b)) .chainMeta (.height (c.height + 1))) j
+        = blockAt c.store j := by
+    intro j hj
+    rw [blockAt_sput_ne _ _ _ _ (by simp), blockAt_sput_ne _ _ _ _ (by simp; omega), blockAt_applyTxs]
+  rw [chainTxs_congr _ _ c.height hold, blockAt_sput_ne _ _ _ _ (by simp), blockAt_sput_same, applyTxs_append]
+  exact ((dataEq_sput_meta _ _).trans (dataEq_sput_block _ _ _)).trans (applyTxs_dataEq b.txs _ _ h)
+
 end Neumann.Chain
